@@ -203,14 +203,24 @@ def mon_requests_responses(ctx, conn, skip_sids=(), require_complete=True, intac
                 if sid in expect and sid not in skip_sids and "dispatch(" + args + ")" != expect[sid]:
                     viol(ctx, conn, "request-not-intact", dict(sid=sid, got="dispatch(" + args + ")", want=expect[sid]), known_class=intact_class)
             elif name == "H":
+                # one response = one header block = one HEADERS frame; when it does not carry END_HEADERS the block goes
+                # on in CONTINUATION frames and the decoded field list is printed on the one that ends it
                 a = args.split(",", 4)
                 sid = int(a[0])
                 g = got[sid]
                 if g["es"]:
                     g["after_es"] += 1
-                g["h"].append(a[4] if len(a) > 4 else "-")
+                g["h"].append((a[4] if len(a) > 4 else "-") if a[2] == "eh=1" else None)
                 if a[1] == "es=1":
                     g["es"] += 1
+            elif name == "C":
+                a = args.split(",", 3)
+                sid = int(a[0])
+                g = got[sid]
+                if not g["h"] or g["h"][-1] is not None:
+                    viol(ctx, conn, "continuation-outside-header-block", dict(sid=sid, item=args[:80]))
+                elif a[1] == "eh=1":
+                    g["h"][-1] = a[3] if len(a) > 3 else "-"
             elif name == "D":
                 a = args.split(",")
                 sid = int(a[0])
@@ -242,6 +252,10 @@ def mon_requests_responses(ctx, conn, skip_sids=(), require_complete=True, intac
                 viol(ctx, conn, "response-missing", dict(sid=sid))
             continue
         want = [(b":status", str(r["status"]).encode())] + [(ascii_lower(k), v) for k, v in r["view"]]
+        if g["h"][0] is None:
+            if not torn:
+                viol(ctx, conn, "header-block-unfinished", dict(sid=sid))
+            continue
         have = kvlist(g["h"][0])
         if "hpack-err" in g["h"][0]:
             viol(ctx, conn, "response-headers-undecodable", dict(sid=sid), known_class="peer-table-limit-reset")
@@ -678,13 +692,61 @@ def mon_settings(ctx, conn):
         if "GA" in names or "returned" in names:
             gone = True
         for n, a in items:
-            if n in ("H", "D"):
+            if n in ("H", "C", "D", "F"):
+                # EVERY frame the server writes: the other kinds (SETTINGS, PING, RST_STREAM, WINDOW_UPDATE, GOAWAY with its
+                # short debug text) are far below 16384 octets by their format
                 m = re.search(r"len=(\d+)", a)
                 if m and int(m.group(1)) > mfs:
-                    viol(ctx, conn, "frame-above-peer-max-frame-size", dict(frame=n, len=int(m.group(1)), max=mfs),
-                         known_class="headers-single-frame" if n == "H" else None)
-                if n == "H" and "hpack-err" in a:
+                    viol(ctx, conn, "frame-above-peer-max-frame-size", dict(frame=n, len=int(m.group(1)), max=mfs))
+                if n in ("H", "C") and "hpack-err" in a:
                     viol(ctx, conn, "encoder-table-above-peer-limit", dict(item=a[:80]), known_class="peer-table-limit-reset")
+
+
+FRAME_ITEMS = ("H", "C", "D", "RST", "S", "PING", "GA", "WU", "F")
+
+
+def mon_header_blocks(ctx, conn):
+    """RFC 7540 4.3 / 6.10 for what the server writes, in wire order over the whole connection: a HEADERS frame without
+    END_HEADERS is followed by CONTINUATION frames on the same stream and by nothing else until one carries END_HEADERS;
+    a CONTINUATION frame occurs nowhere else, is never empty, and only the first frame of a block may be short of the
+    size the block is cut at (16384) when another follows."""
+    open_sid = None
+    prev_len = None
+    for op, out in conn.steps:
+        if out.startswith("mon settled"):
+            # frames written while nobody waited (burst/doneall): the harness counts, in wire order, the frames it saw
+            # between a HEADERS frame without END_HEADERS and the end of its block
+            m = re.search(r"hbi=(\d+)", out)
+            if m and int(m.group(1)) > 0:
+                viol(ctx, conn, "header-block-interrupted", dict(frames_inside_blocks=int(m.group(1)), summary=out[:200]))
+            continue
+        for n, a in parse_out(out):
+            if n not in FRAME_ITEMS:
+                continue
+            sid = int(a.split(",", 1)[0]) if n in ("H", "C") else None
+            if open_sid is not None and not (n == "C" and sid == open_sid):
+                viol(ctx, conn, "header-block-interrupted", dict(block_on=open_sid, by=n + "(" + a[:60] + ")"))
+                open_sid = None
+            if n == "H":
+                ln = int(re.search(r"len=(\d+)", a).group(1))
+                if ",eh=0," in a:
+                    open_sid, prev_len = sid, ln
+                    if ln != 16384:
+                        viol(ctx, conn, "header-block-cut-short", dict(sid=sid, len=ln))
+            elif n == "C":
+                ln = int(re.search(r"len=(\d+)", a).group(1))
+                if open_sid is None:
+                    viol(ctx, conn, "continuation-outside-header-block", dict(sid=sid, item=a[:60]))
+                if ln == 0:
+                    viol(ctx, conn, "empty-continuation", dict(sid=sid))
+                if ",eh=1," in a:
+                    open_sid = None
+                elif ln != 16384:
+                    viol(ctx, conn, "header-block-cut-short", dict(sid=sid, len=ln))
+    if open_sid is not None:
+        last = conn.steps[-1][1] if conn.steps else ""
+        if not any(("returned" in o or "GA(" in o or "gone" in o or "stuck" in o) for _, o in conn.steps[-3:]):
+            viol(ctx, conn, "header-block-unfinished", dict(sid=open_sid, last=last[:80]))
 
 
 # RFC 7540 8.1.2 well-formedness of a request (C20)
@@ -842,8 +904,8 @@ def run_family(ctx, areas, monitors, rule, regress=()):
 
 
 def run_c01(ctx):
-    return run_family(ctx, ["srv-basic", "srv-hpackupd", "srv-flow"], [lambda c, k: mon_requests_responses(c, k), mon_flow],
-                      "srv-basic: sets of <= MaxConcurrentStreams well-formed requests, random HPACK representation per field, header blocks cut into CONTINUATION at random octets, padding, priority section, DATA chunking and empty DATA, random interleaving (block contiguity kept), random completion order, buffered/streamed/empty responses. "
+    return run_family(ctx, ["srv-basic", "srv-hpackupd", "srv-flow"], [lambda c, k: mon_requests_responses(c, k), mon_flow, mon_header_blocks],
+                      "srv-basic: sets of <= MaxConcurrentStreams well-formed requests, random HPACK representation per field, header blocks cut into CONTINUATION at random octets, padding, priority section, DATA chunking and empty DATA, random interleaving (block contiguity kept), random completion order, buffered/streamed/empty responses; responses with header blocks of 16383-16385, 32768, 32769, 40000 octets and of 4 and 9 large fields, whose HEADERS + CONTINUATION frames the peer reassembles and decodes: the fields are the handler's. "
                       "srv-hpackupd: request and trailer blocks opening with 1-3 dynamic table size updates, cut at every octet of the opening and of the first field, in three frames at every pair of octets of the opening, with empty CONTINUATION frames (the shapes of the repaired F04/F05). "
                       "srv-flow: several responses (buffered and streamed) held back and released by window schedules: every response octet is compared with what its handler produced.")
 
@@ -915,10 +977,12 @@ def run_c17(ctx):
 
 
 def run_c18(ctx):
-    return run_family(ctx, ["srv-settings", "srv-tabledip"], [mon_settings],
-                      "srv-settings: 1-4 SETTINGS frames per connection over 8 ids (incl. unknown) x boundary values, each followed by a request answered with header values of 1-17000 octets and bodies of 1-70000 octets. "
+    return run_family(ctx, ["srv-settings", "srv-tabledip"], [mon_settings, mon_header_blocks],
+                      "srv-settings: 1-4 SETTINGS frames per connection over 8 ids (incl. unknown) x boundary values, each followed by a request answered with header values of 1-17000 octets and bodies of 1-70000 octets; "
+                      "then response header blocks of 16381-16387, 32765-32771, 40000, 49152, 49153 octets and blocks of 4 and 9 large fields (no body: END_STREAM on the HEADERS frame; bodies of 5, 20000, 70000 octets) towards peers that announced no, 2^20 and 16384 MAX_FRAME_SIZE: EVERY frame written is within the peer's limit, "
+                      "every block is HEADERS + CONTINUATION, contiguous, cut at 16384, ended by END_HEADERS; 1-4 parked handlers released at once with 40000-octet blocks while PING and SETTINGS frames arrive without waiting (wire order checked by the harness: hbi=). "
                       "srv-tabledip: responses whose :status the encoder stores in its dynamic table (201, 418, 503), between them 1-2 SETTINGS frames with 1-3 HEADER_TABLE_SIZE values each over {0, 41, 42, 100, 4096, 65536} and other settings mixed in; the peer's decoder follows its own announcements value by value, so every dip must be announced (the shapes of the repaired F09s first, then known/F09s.ops).",
-                      regress=["known/F09s.ops"])
+                      regress=["known/F09s.ops", "known/F33.ops"])
 
 
 def run_c20(ctx):
@@ -963,6 +1027,10 @@ def run_c19(ctx):
             for c in area_client.split_conns(o, i):
                 for (kind, detail) in area_client.mon_errvalue(c):
                     ctx.violations.append(dict(kind="pooled-frame-still-referenced:" + kind, detail=dict(family=area, what=detail), ops=c.lines))
+                # frames written by several goroutines at once (clirace: long request header blocks next to flushed uploads,
+                # answers of the read loop and Close's GOAWAY): a header block stays in one piece
+                for (kind, detail) in area_client.mon_header_blocks(c):
+                    ctx.violations.append(dict(kind=kind, detail=dict(family=area, what=detail), ops=c.lines))
         if area.startswith("srv") and area != "srv-burst":
             cov, diffs = srv_compare(ctx, area, o[1:-1], i[1:-1], m[1:-1])
         else:
